@@ -185,7 +185,7 @@ func c07E3(l *core.Ledger, r *rt) {
 		}
 	})
 	for _, sc := range sendCalls {
-		m := func(o sx.Origin) bool { return o.Kind == sx.KCall && o.V == sc }
+		m := func(o sx.Origin) bool { return (o.Kind == sx.KCall || o.Kind == sx.KExtract) && o.V == ssa.Value(sc) }
 		sx.AllInstrs(fn, func(_ sx.Node, in ssa.Instruction) {
 			if ifi, isIf := in.(*ssa.If); isIf && isErrNonNil(ifi, m) != 0 {
 				okEdges = append(okEdges, errEdge(ifi, m, false))
@@ -337,7 +337,7 @@ func c07E4(l *core.Ledger, r *rt) {
 	}
 	key := fnKey(reader)
 	rc := recvMsgCalls(reader)[0]
-	m := func(o sx.Origin) bool { return o.Kind == sx.KCall && o.V == rc }
+	m := func(o sx.Origin) bool { return (o.Kind == sx.KCall || o.Kind == sx.KExtract) && o.V == ssa.Value(rc) }
 	var errEdges []sx.Edge
 	sx.AllInstrs(reader, func(_ sx.Node, in ssa.Instruction) {
 		if ifi, ok := in.(*ssa.If); ok && isErrNonNil(ifi, m) != 0 {
